@@ -3,7 +3,7 @@ CONSTANTS
   Script <- ScriptB
   Names = {"a", "b", "c"}
   MaxCliOps = 1000
-  FaultKinds = {"garbage", "oversize", "trunc", "closein", "waitabort", "closeout"}
+  FaultKinds = {"garbage", "oversize", "trunc", "closein", "waitabort", "closeout", "stall"}
   AllowZZ = TRUE
   AllowEarly = TRUE
   AnyName = TRUE
